@@ -2090,6 +2090,11 @@ class SymEval:
                 except (KeyError, IndexError, ValueError, TypeError) as e:
                     raise Opaque('augmented store into %s: %s' % (norm(t), e))
                 return [p]
+            if (isinstance(base, (sp.Basic, int, float, tuple, str)) and not isinstance(base, bool)):
+                # a number (numpy scalar), tuple or str does not support item assignment
+                if self.try_depth > 0:
+                    raise _PyRaise('TypeError')
+                raise WouldRaise('TypeError: %s object does not support item assignment in %s' % (type(base).__name__, norm(t)))
         load = ast.copy_location(_as_load(s.target), s.target)
         cur = self.ev(load, p)
         v = self.ev(s.value, p)
